@@ -99,3 +99,19 @@ Definition chain_run (cap : nat) (sched : list ctid) (c : chain) : option chain 
 (* what the last worker (the sink) has received, as payloads *)
 Definition payloads_of (l : list citem) : list payload := flat_map (fun x => match x with Blk p => [p] | _ => [] end) l.
 Definition sink_seen (c : chain) : list payload := match rev (segs c) with s :: _ => payloads_of (sseen s) | [] => [] end.
+
+(* ---- util::stream::Stream (util/stream/stream.hh): the record-level view of the blocks a worker receives ----
+   StartBlock skips EVERY block whose valid size is 0 (a stage that compacts blocks in place can empty whole runs of them),
+   operator++ moves to the next record and, at the end of the block, to the next non-empty block; the stream is false at
+   the poison.  Cursor = current record, the rest of its block, the blocks still to come. *)
+Fixpoint skip_empty (bl : list payload) : list payload :=
+  match bl with [] :: r => skip_empty r | _ => bl end.
+Inductive scursor := SEnd | SAt (cur : nat) (rest_of_block : list nat) (blocks : list payload).
+Definition stream_start (bl : list payload) : scursor :=
+  match skip_empty bl with (x :: r) :: rest => SAt x r rest | _ => SEnd end.
+Definition stream_next (c : scursor) : scursor :=
+  match c with SAt _ (y :: r) rest => SAt y r rest | SAt _ [] rest => stream_start rest | SEnd => SEnd end.
+(* for (Stream s(pos); s; ++s) use the record at s *)
+Fixpoint stream_read (fuel : nat) (c : scursor) : list nat :=
+  match fuel, c with S f, SAt x _ _ => x :: stream_read f (stream_next c) | _, _ => [] end.
+Definition stream_records (bl : list payload) : list nat := stream_read (S (length (concat bl))) (stream_start bl).
